@@ -3,7 +3,7 @@
 # worktree with the patch applied; prints one line per seeded change. Usage: tools/seed_all.sh [tier]
 TIER=${1:-quick}
 cd "$(dirname "$0")/.."
-for D in seeded/*/; do
+for D in "$(pwd)"/seeded/*/; do
   ID=$(basename $D)
   P=$(/venv/bin/python -c "import json;print(json.load(open('$D/meta.json'))['breaks_property'])")
   T=$(mktemp -d /tmp/mabw_seedall.XXXXXX)
